@@ -96,7 +96,15 @@ def scn_poll(ctx):
             raise RuntimeError("cancel function failed")
         return c == 0
 
-    ex = PollExecutor(me, poll_fn, cancel_fn if with_cancel else None, default_interval=interval)
+    cfn = cancel_fn if with_cancel else None
+    if with_cancel and p.get("falsy_cancel_fn"):
+        class Vetoes(list):
+            """a cancel function that is a falsy object (an empty list of veto rules that is callable)"""
+
+            def __call__(self, result):
+                return cancel_fn(result)
+        cfn = Vetoes()
+    ex = PollExecutor(me, poll_fn, cfn, default_interval=interval)
     futs = [ex.submit(lambda i=i: ("r", i)) for i in range(n)]
     dels = list(me.submitted)
     kinds = [ctx.choice(2, "delegate%d-kind" % i) for i in range(n)]  # 0 value, 1 error
@@ -259,6 +267,10 @@ def scn_poll(ctx):
                 ctx.check("cancel-fn-veto", uc["result"] is False, "cancel() returned %r although the cancel function said %s" % (uc["result"], ("True", "False", "raise")[x["verdict"]]))
                 ctx.reach("veto-checked")
         ctx.check("cancel-fn-at-most-once", len(cf) <= 1, "cancel function called %d times for one cancel()" % len(cf))
+        shown_before = [pb for pb in ev.of("poll_begin") if pb["seq"] < b["seq"] and j in pb["tags"]]
+        if with_cancel and shown_before and uc["result"] is True:
+            # it was in the polling stage (already shown to a poll call) when cancel() began, and the cancel went through
+            ctx.check("cancel-fn-consulted-in-polling-stage", len(cf) == 1, "cancel() of a future being polled returned True without asking the cancel function")
     ex.shutdown(wait=True)
     return True
 
@@ -281,6 +293,7 @@ def plan(tier, seed):
             dict(scenario="poll", params=dict(n=1, script_calls=2, notify=True), bounds=dict(P=1)),
             dict(scenario="poll", params=dict(n=2, script_calls=1, double_yields=True), bounds=dict(P=0)),
             dict(scenario="poll", params=dict(n=2, script_calls=2, during_poll=True), bounds=dict(P=1)),
+            dict(scenario="poll", params=dict(n=1, script_calls=1, cancel=True, falsy_cancel_fn=True), bounds=dict(P=1)),
         ]
     return [
         dict(scenario="poll", params=dict(n=3, script_calls=2), bounds=dict(P=1)),
